@@ -27,23 +27,24 @@ echo "SEED $name: demo without change exit=$d0, with change exit=$d1, tests=$tes
 mkdir -p /verif/seeded/$name
 git diff -- hl7apy > /verif/seeded/$name/patch.diff
 cp _seed/demo.py /verif/seeded/$name/demo.py
-detected=""
+detected=""; rules=""
 cd /verif
 for f in hl7lint/rules/c[0-9][0-9].py; do
   id=$(basename $f .py | tr c C)
   out=$(HL7LINT_REPO=$wt HL7LINT_NOEVIDENCE=1 ./check $id 2>&1); rc=$?
-  if [ $rc -eq 1 ]; then detected="$detected $id"; echo "$out" | grep "^FINDING" | head -3 | cut -c1-260; fi
+  if [ $rc -eq 1 ]; then detected="$detected $id"; echo "$out" | grep "^FINDING" | head -3 | cut -c1-260
+    rules="$rules $(echo "$out" | grep "^FINDING" | sed -n 's/.* rule=\([^ ]*\) .*/\1/p' | sort -u | tr '\n' ' ')"; fi
   if [ $rc -eq 2 ]; then detected="$detected $id(ANALYSIS-ERROR)"; echo "$out" | grep "ANALYSIS-ERROR" | cut -c1-200; fi
 done
 echo "SEED $name: target=$pid detected_by=[$detected ]"
-/venv/bin/python - "$pid" "$name" "$d0" "$d1" "$tests" "$detected" <<'PY'
+/venv/bin/python - "$pid" "$name" "$d0" "$d1" "$tests" "$detected" "$rules" <<'PY'
 import json,sys,os
-pid,name,d0,d1,tests,det=sys.argv[1:7]
+pid,name,d0,d1,tests,det,rules=sys.argv[1:8]
 p='/verif/seeded/%s/meta.json'%name
 try: m=json.load(open('/tmp/wtv/%s/_seed/meta.json'%name))
 except Exception: m={}
 m.update({'property':pid,'confirmed':{'demo_exit_without_change':int(d0),'demo_exit_with_change':int(d1),'test_suite':tests,
           'how':'tools/seedeval.sh: scratch worktree of /repo HEAD, git apply patch.diff, baseline pytest command, demo.py before/after'},
-          'detected_by':det.split()})
+          'detected_by':det.split(),'rules_reporting':sorted(set(rules.split()))})
 json.dump(m,open(p,'w'),indent=1)
 PY
